@@ -21,6 +21,8 @@ THEOREMS = {"glob_iff": "full: match_glob = wildcard semantics for every pattern
                                 "specification (f / q / prompt answers y n a s, junk, end of input = abort) says so; everything else untouched",
             "prompt_follows_spec": "full", "overwrite_outcome_spelled": "definition unfolding",
             "print_writes_selected": "full, on bytes, every option set: lha p = for each selected entry banner + EXACTLY the file's data",
+            "extract_implicit_parents": "full: archives without directory entries - every entry as archived, every missing parent 0755-umask / now",
+            "extract_mixed": "full: explicit + implicit + LATE directory entries (a late entry is ignored, as the tool does)", "implicit_tree_spelled": "full",
             "extract_reproduces_tree_packed": "full: the same for any member packer with a decoder round trip (stored L1/L2, -lzs-, -lz5- instantiated)",
             "archive_denotes_tree": "full: the Denotes hypothesis of run_tree_partial is a theorem for such archives",
             "sample_tree_with_files_extracts": "non-vacuity incl. files and read-only directories",
@@ -336,6 +338,17 @@ def gen_cases(ctx, n):
         for e in ents:
             if e.kind == "dir" and e.level == 0:
                 e.level = 2          # level-0 directory entries cannot carry a trailing separator portably
+        implicit = None
+        kk = r.random()
+        if kk < 0.12 and any(e.kind != "dir" for e in ents):
+            ents = [e for e in ents if e.kind != "dir"]                 # an archive without directory entries (LHA for DOS, LHarc)
+            implicit = "nodirs"
+        elif kk < 0.18:
+            dirs = [e for e in ents if e.kind == "dir"]
+            if dirs and len(ents) > 2:
+                drop = r.choice(dirs)                                    # one directory entry missing: its contents make it implicitly
+                ents = [e for e in ents if e is not drop]
+                implicit = "onedrop"
         comp = assign_contents(r, ents)
         for e in ents:
             if e.kind == "file" and e.method.startswith(b"-pm") and e.level == 0:
@@ -347,6 +360,8 @@ def gen_cases(ctx, n):
                 e.level = 1          # a level-0 header carries the Unix time only inside the Unix area (with permissions)
         k = r.random()
         opts, filters, pre, answers, cmd = [], [], [], b"", "x"
+        if implicit:
+            k = r.random() * 0.25          # plain extraction: the implicit-parents theorem's domain
         if k < 0.25:
             opts = [r.choice(["f", "q", "q0", "q1", "q2"])]
         elif k < 0.35:
@@ -401,7 +416,7 @@ def gen_cases(ctx, n):
             cmd = "p"
         as_root = r.random() < 0.5
         key = "x06 %d" % len(_cases)
-        _cases[key] = dict(ents=ents, comp=comp, opts=opts, filters=filters, pre=pre, answers=answers, cmd=cmd, as_root=as_root)
+        _cases[key] = dict(ents=ents, comp=comp, opts=opts, filters=filters, pre=pre, answers=answers, cmd=cmd, as_root=as_root, implicit=implicit)
         nd = sum(1 for e in ents if e.kind == "dir")
         nf = sum(1 for e in ents if e.kind == "file")
         tags = {"cmd=" + cmd, "root" if as_root else "nobody"} | {"opt=" + (o[0] if o.startswith("w") else o) for o in opts}
@@ -409,6 +424,8 @@ def gen_cases(ctx, n):
             tags.add("wildcards")
         if pre:
             tags.add("pre-existing")
+        if implicit:
+            tags.add("implicit-parents=" + implicit)
         tags |= {"m=" + e.method.decode() for e in ents if e.kind == "file"}
         if any(hasattr(e, "visible") for e in ents):
             tags.add("macbinary")
@@ -668,6 +685,9 @@ def tree2_op(d, arch, abs_prefix):
 
 
 def tree_op(d, arch, abs_prefix):
+    if d.get("implicit"):
+        return "xtree4 %s %d %s %s %s" % (",".join(d["opts"]) or "-", 1 if d["as_root"] else 0, hx(abs_prefix),
+                                          ",".join(entry_desc(e) for e in d["ents"]) or "-", arch.hex())
     return "xtree %s %d %s %s %s" % (",".join(d["opts"]) or "-", 1 if d["as_root"] else 0, hx(abs_prefix),
                                      ",".join(entry_desc(e) for e in d["ents"]) or "-", arch.hex())
 
@@ -777,7 +797,7 @@ LEVEL_TEXT = ("Lean theorems: extraction of a well-formed archive yields exactly
 LEVEL_NOTE = ("Partial: the file system is a model (no hard links, chown, whole-second times); tree equality is PROVED end to end on archive "
               "bytes for plain `lha x` of well-formed trees with explicit parent entries (extract_reproduces_tree: header encoder + stored/"
               "-lzs-/-lz5- members; run_tree_partial for any archive that denotes the tree) and checked by correspondence for options "
-              "pre-existing files / implicit parents / unclosed wildcard selections / -lk7-. Options i, w=DIR and parent-closed wildcard "
+              "nested pre-existing files / unclosed wildcard selections / options combined with implicit parents / -lk7-. Implicit parents and mixed archives are proved (extract_implicit_parents, extract_mixed). Options i, w=DIR and parent-closed wildcard "
               "selections are proved (extract_flattened, extract_relocated, extract_selected), all eleven other methods too. See evidence.theorems.")
 TECHNIQUE = ("Lean 4 proof (whole-tree theorem over the Fs/Extract/Reader models by loop invariant; glob semantics; MacBinary) + "
              "hypothesis evaluation on generated archives + file-system-model correspondence + independent tree oracle")
